@@ -86,6 +86,7 @@ var epNames17 = []string{"ValidateData(JSON)", "ValidateData(YAML)", "ValidateFi
 var verdictNames17 = []string{"accept", "reject", "PANIC", "not run", "returned bytes differ from input"}
 
 type run17 struct {
+	padded   int
 	r        *hx.R
 	scratch  string
 	n        int
@@ -109,6 +110,14 @@ func (x *run17) observe(c *cfg17, d *Doc, spec *specs.Spec) ([]int, map[string]i
 		yamlOK = true // "{}" is what a block-style writer emits; ValidateData takes the JSON branch for it
 	}
 	x.n++
+	if x.n%89 == 7 && d.K == sdObj && len(d.O) > 0 && len(jb) > 0 && jb[0] == '{' {
+		// the same document as a text of more than a megabyte: insignificant white space in the JSON text, comment lines in the
+		// YAML text (size must not matter to any entry point, in particular not to the ones that read from a stream)
+		pad := bytes.Repeat([]byte("          \n"), 120000)
+		jb = append(append([]byte("{"), pad...), jb[1:]...)
+		yb = append(bytes.Repeat([]byte("# padding padding padding padding\n"), 40000), yb...)
+		x.padded++
+	}
 	dir := filepath.Join(x.scratch, fmt.Sprintf("c17-%d", x.n%8))
 	_ = os.MkdirAll(dir, 0o755)
 	pj, py, pt := filepath.Join(dir, "doc.json"), filepath.Join(dir, "doc.yaml"), filepath.Join(dir, "doc.txt")
